@@ -185,7 +185,7 @@ def k1_struct(ctx):
     cases += forest_family(ctx.tier, rnd)
     res = {'ok': True, 'rows': []}
     for feat in (False, True):
-        texts = [smgen.dsl_defn(d) for d in cases]
+        texts = [smgen.dsl_defn(d, vary=True) for d in cases]
         real = stages.expand(exp['bins'][feat], texts)
         shards = [[] for _ in range(16)]
         for i, d in enumerate(cases):
